@@ -24,7 +24,7 @@ import (
 	"verifharness/common"
 )
 
-const watchdog = 1500 * time.Millisecond
+const watchdog = 4 * time.Second
 
 type child struct {
 	XMLName xml.Name
